@@ -312,7 +312,7 @@ def bounded_tokens(pid, tier, seed, pids=None):
             % (maxlen, len(VOCAB), stats["sequences"], stats["viable"], "; TIME BUDGET HIT" if stats["timeout"] else ""),
             "rule": "distinct = token sequence; a prefix is not extended once both the real parser and the reference have "
                     "rejected it at one of its tokens", "evaluations": stats["sequences"], "distinct": stats["viable"],
-            "samples": samples, "exhaustive": not stats["timeout"], "violations": vio}
+            "samples": samples, "exhaustive": not stats["timeout"], "stable": not stats["timeout"], "violations": vio}
 
 
 def bounded_generated(pid, tier, seed, pids=None):
@@ -359,7 +359,7 @@ def bounded_generated(pid, tier, seed, pids=None):
             "orders, string/list/multi-line values, nesting <= 2) x rendering styles (LF/CRLF/tabs, upper-case identifiers, "
             "comments) + single-token edits: %d cases (%d generator outputs the reference itself did not accept were skipped)"
             % (len(S), evals, gen_bugs), "rule": "distinct = script text", "evaluations": evals, "distinct": len(distinct),
-            "samples": samples, "exhaustive": False, "violations": vio}
+            "samples": samples, "exhaustive": False, "stable": True, "violations": vio}
 
 
 class _Timeout(Exception):
@@ -517,6 +517,8 @@ def bounded_positions(pid, tier, seed):
     prefixes = [b"", "# caf\xc3\xa9 \xe2\x82\xac\n".encode("latin-1"),
                 b'if header :is "a\nb" "c\r\nd" { keep; }\n/* x\ny */ ']
     for toks in S:
+        if real_parse(b"\n".join(toks))["verdict"] is not True:
+            continue  # the base script itself is one the parser rejects (a C01 finding such as `keep :flags`): not a C18 case
         # where may a command start / where do arguments of a complete command end
         cmd_starts = [i for i in range(h, len(toks) + 1) if i == h or toks[i - 1] in (b";", b"{", b"}")]
         semis = [i for i in range(h, len(toks)) if toks[i] == b";"]
@@ -830,7 +832,9 @@ QUOTING_VALUES = [b'"x"', b'"a\\"b"', b'"a\\\\"', b'"end\\""', b'"\\"start"', b'
 QUOTING_TEMPLATES = [b'require "fileinto"; fileinto %s;', b'if header :is [%s, "z"] [%s] { keep; }', b'if header :contains %s %s { stop; }',
                      b'require "vacation"; vacation :subject %s :addresses [%s] %s;', b'redirect %s;', b'require "reject"; reject %s;',
                      b'if exists [%s] { discard; }', b'if anyof (exists %s, not header :matches %s [%s, %s]) { keep; }',
-                     b'require "reject"; reject text:\nline one\n%s\n.\n;']
+                     b'require "reject"; reject text:\nline one\n%s\n.\n;',
+                     b'require "vacation"; vacation :subject text:\nsubj %s\n.\n :days 7 text:\nreason\n.\n;',
+                     b'require "vacation"; vacation :handle text:\nh\n.\n :subject %s "r";']
 
 
 def bounded_roundtrip(pid, tier, seed):
